@@ -35,17 +35,57 @@ func genC06(t *rapid.T) *ParseCase {
 			}
 		}
 	}
+	// ... and some through an INI file read before the command line
+	if rapid.IntRange(0, 2).Draw(t, "withIni") == 0 {
+		for _, o := range c.D.AllOpts() {
+			if !o.IsRequired() || o.Kind.IsFunc() || o.NoIni || rapid.IntRange(0, 2).Draw(t, "iniSupply") != 0 {
+				continue
+			}
+			sects := iniSectionsFor(c.D, o)
+			raw := ""
+			if !o.Kind.IsFlag() {
+				v := ""
+				if len(o.Choices) > 0 {
+					v = o.Choices[0]
+				} else {
+					v = genValidText(t, o.Kind, o.Base)
+				}
+				raw = iniValueFor(o, v, false)
+			}
+			l := IniLine{Section: sects[0], Key: o.Field, Value: raw}
+			if r := RefIni(c.D, []IniLine{l}); r.ErrKind == "" && r.Opts[o.ID] != nil {
+				c.Ini = append(c.Ini, l)
+			}
+		}
+		sort.SliceStable(c.Ini, func(i, j int) bool { return c.Ini[i].Section < c.Ini[j].Section })
+	}
 	return c
 }
 
 func c06Oracle(c *ParseCase) string {
 	st := S("C06")
-	ref := Ref(&RefInput{D: c.D, Args: c.Args, Env: c.Env})
+	var pre map[string][]interface{}
+	iniText := ""
+	if len(c.Ini) > 0 {
+		ir := RefIni(c.D, c.Ini)
+		if ir.ErrKind != "" {
+			st.Label("skip: ini not accepted by R")
+			return ""
+		}
+		pre = ir.Touched
+		iniText, _ = RenderIni(c.Ini)
+		st.Label("required option supplied through INI")
+	}
+	ref := Ref(&RefInput{D: c.D, Args: c.Args, Env: c.Env, PreSet: pre})
 	if ref.Undetermined != "" {
 		st.Label("skip: " + ref.Undetermined)
 		return ""
 	}
-	rr := RunReal(c.D, c.Args, c.Env, &RealCfg{CmdHandler: c.CmdHandler})
+	rr := RunReal(c.D, c.Args, c.Env, &RealCfg{CmdHandler: c.CmdHandler, Ini: iniText})
+	if rr.IniErr != nil {
+		st.Label("skip: ini rejected")
+		return ""
+	}
 	if rr.Panic != "" || rr.SetupErr != nil {
 		st.Label("skip: panic or setup error")
 		return ""
